@@ -98,6 +98,12 @@ def decorate_jobs(jobs, seed, prop):
     for i, j in enumerate(jobs):
         if 'pipe_saves' not in j['plan'] and j['plan'].get('profile') not in ('flow', 'describe') and Rng(seed, prop, 'pipe-saves', i).chance(0.1):
             j['plan']['pipe_saves'] = True
+    # save options: in an eighth of the runs the non-raw saves switch on only one of optimize / sortBlocks (not for C04, whose
+    # oracle is about what exactly the default save does)
+    for i, j in enumerate(jobs):
+        r = Rng(seed, prop, 'save-options', i)
+        if prop != 'C04' and 'save_options' not in j['plan'] and j['plan'].get('profile') not in ('flow', 'describe') and r.chance(0.125):
+            j['plan']['save_options'] = r.choice([1, 2])
     # F-REUSE: in a fifth of the runs restarts load the saved file back into the NifFile object that wrote it
     for i, j in enumerate(jobs):
         if 'reuse_object' not in j['plan'] and Rng(seed, prop, 'reuse-object', i).chance(0.2):
